@@ -727,7 +727,12 @@ def oracle_c07(rr: Any, spec: Dict[str, Any]) -> "tuple[List[Violation], int]":
                 v.append(Violation("is-err-wrong", f"delivery {d} returned but result has is_err={res.is_err}, error={res.error!r}"))
             want = {"tok": info["tok"], "v": beh.get("value")}
             got = res.return_value
-            if beh.get("ret_exc"):
+            if beh.get("ret_model"):
+                cls_name = "_ReqModel" if beh["ret_model"] == "model" else "_Unit"
+                if type(got).__name__ != cls_name or getattr(got, "name", None) != info["tok"]:
+                    v.append(Violation("return-value-wrong", f"delivery {d}: the function returned a {cls_name} object, the stored return_value is "
+                                       f"{got!r} ({type(got).__name__})"))
+            elif beh.get("ret_exc"):
                 if not (isinstance(got, ValueError) and got.args == ("just a value", info["tok"])):
                     v.append(Violation("return-value-wrong", f"delivery {d}: the function returned an exception object as its value, the stored return_value is {got!r} (is_err={res.is_err}, error={res.error!r})"))
             elif not isinstance(got, dict) or got.get("tok") != want["tok"] or got.get("v") != want["v"]:
